@@ -59,6 +59,12 @@ def _apply(entry, scratch):
         r = subprocess.run(["patch", "-p1", "-s", "--fuzz=0", "-i", entry["patch"]], cwd=scratch, capture_output=True, text=True)
         for junk in list(Path(scratch).rglob("*.orig")) + list(Path(scratch).rglob("*.rej")):
             junk.unlink()
+        if r.returncode != 0 and "GIT binary patch" in Path(entry["patch"]).read_text(errors="replace"):
+            # a patch that also changes a shipped binary data file (default.db): `patch` cannot, `git apply` can (no repository needed);
+            # start again from pristine files, a partial `patch` run may have changed some
+            shutil.rmtree(Path(scratch) / "src")
+            shutil.copytree(Path(entry.get("_root", "/repo")) / "src", Path(scratch) / "src", ignore=shutil.ignore_patterns("__pycache__", "*.pyc"))
+            r = subprocess.run(["git", "apply", "-p1", entry["patch"]], cwd=scratch, capture_output=True, text=True)
         return r.returncode == 0
     f = Path(scratch) / entry["file"]
     if not f.exists():
@@ -82,6 +88,7 @@ def _one(prop, root, entry, base):
     scratch = tempfile.mkdtemp(prefix="pgverif-st-", dir=base)
     try:
         shutil.copytree(Path(root) / "src", Path(scratch) / "src", ignore=shutil.ignore_patterns("__pycache__", "*.pyc"))
+        entry = dict(entry, _root=str(root))
         if not _apply(entry, scratch):
             return {"name": entry["name"], "status": "skipped (anchor text not in the current tree)"}
         env = dict(os.environ, PGVERIF_EVIDENCE_DIR=str(Path(scratch) / "ev"), PGVERIF_NO_SELFTEST="1", PGVERIF_JOBS="2")
